@@ -8,7 +8,10 @@ from .. import core, gen, sx
 from .. import pymach as pm
 
 THEOREMS = ['C13.match_sound', 'C13.match_respects_seed', 'C13.match_complete', 'C13.match_complete_partial', 'C13.match_incomplete_two_lists', 'C13.matchList_sound',
-            'C13.matchList_empty_succeeds', 'C13.head_transparent']
+            'C13.matchList_empty_succeeds', 'C13.head_transparent',
+            'C13.matching_translated', 'C13.matching_text_is_the_model', 'C13.matchList_text_is_the_model',
+            'C13.matchList_text_empty_succeeds', 'C13.destructors_text_is_the_model',
+            'C13.notation_matches_text_is_the_model', 'C13.matching_text_sound']
 
 
 def mv_records(p, acc):
